@@ -198,6 +198,10 @@ func enumC03(t *testing.T) {
 							}
 							c := c03Case(ty, st, rs, car, missing)
 							c.ListMissing = pat
+							if missing && (car == "map" || car == "mapiface" || car == "url") && idx%2 == 0 {
+								// the entry is missing while entries that no rule mentions are present
+								c.Others = [][2]string{{"o1", "x"}, {"o2", ""}}
+							}
 							count++
 							if !(ty.name == "string" || ty.name == "int32") {
 								nt++
